@@ -43,13 +43,16 @@ def replay_case(rp):
     """re-execute a replay dict against /repo: returns (verdict, conjunct failures)"""
     from skepticoin.datatypes import Block
     from skepticoin.coinstate import CoinState
-    env = chaingen.Env(period=rp['period'], block_span=rp['span'] // rp['period'], interval=rp.get('interval'))
+    env = chaingen.Env(period=rp['period'], block_span=rp['span'] // rp['period'], interval=rp.get('interval'),
+                       hz=rp.get('hz', -1), known={int(k): v for k, v in (rp.get('known') or {}).items()})
     with env:
         cs = CoinState.empty()
         for hx in rp['prefix']:
             cs = cs.add_block_no_validation(Block.deserialize(bytes.fromhex(hx)))
         blk = Block.deserialize(bytes.fromhex(rp['block']))
         v, _ = impl_verdict(cs, blk, rp['now'])
+        for _ in range(rp.get('offers', 1) - 1):
+            v, _ = impl_verdict(cs, blk, rp['now'])
         return v
 
 
@@ -125,15 +128,16 @@ def run_consensus(ck, tags, oracle, tier, ntrees_quick=6, ntrees_thorough=40, ex
             if nonhead:
                 parents.append(rng.choice(nonhead))
             seen_par = set()
-            for par in parents:
-                if par.id in seen_par:
-                    continue
-                seen_par.add(par.id)
-                cases = mutators.mutants(tg, par, rng, tags=tags)
+
+            def offer(par, env):
+                cases = mutators.mutants(tg, par, rng, tags=tags, horizon_env=env if env.hz >= 0 else None)
                 if extra_cases:
                     cases += extra_cases(tg, par, rng)
                 for c in cases:
                     blk = c['block']
+                    if c.get('warm') is not None:
+                        # the same in-memory objects were validated once before (pool admission, an earlier offer)
+                        impl_verdict(cs, c['warm'], c['now'])
                     with model.Transcript() as tr:
                         v, new = impl_verdict(cs, blk, c['now'])
                         for m in order:
@@ -148,6 +152,17 @@ def run_consensus(ck, tags, oracle, tier, ntrees_quick=6, ntrees_thorough=40, ex
                                     'block_bytes': len(bv.bytes)} if c['label'] in ('signed-by-other-key', 'reward-plus-one', 'time-31s-in-future') and len(ck.samples) < 5 else None)
                     replay = {'label': c['label'], 'prefix': [m.block.serialize().hex() for m in order],
                               'block': bv.bytes.hex(), 'now': c['now'], 'period': env.period, 'span': env.span, 'interval': env.interval}
+                    if env.hz >= 0:
+                        replay.update(hz=env.hz, known=env.known)
+                    if c.get('warm') is not None:
+                        replay['warm'] = c['warm'].serialize().hex()
+                    if v[0] != 1 and c['expect'] == 'reject':
+                        # a verdict is a function of (block, chain, clock): the same block offered again gets it again
+                        v2, _ = impl_verdict(cs, blk, c['now'])
+                        ck.count('rejected-block-offered-again')
+                        if v2[0] == 1:
+                            replay['offers'] = 2
+                            v = v2
                     if v[0] == 1:
                         bad = oracle([m.view for m in par.chain()], par.utxo, bv, c['now'], env)
                         if bad:
@@ -157,6 +172,23 @@ def run_consensus(ck, tags, oracle, tier, ntrees_quick=6, ntrees_thorough=40, ex
                                                 [[1, bv.bytes, c['now']]], 0]))
                     meta.append({'what': 'mutant', 'label': c['label'], 'impl': v, 'replay': replay,
                                  'expect': c['expect']})
+            for par in parents:
+                if par.id in seen_par:
+                    continue
+                seen_par.add(par.id)
+                offer(par, env)
+            # --- the same mutants with a checkpoint horizon k inside the chain (heights <= k skip in-chain validation BY
+            #     DESIGN; the first height the rules apply to again is k + 1): parents at heights k and k + 1
+            if trial % 2 == 1 and head.height >= 3:
+                from skepticoin.humans import human
+                hchain = head.chain()
+                k = rng.randrange(1, head.height)
+                known = {h: human(hchain[h].id) for h in range(0, k + 1) if h == k or rng.random() < 0.6}
+                with chaingen.Env(period=env.period, block_span=env.span // env.period, interval=env.interval, hz=k,
+                                  known=known) as envh:
+                    for par in (hchain[k], hchain[min(k + 1, head.height)]):
+                        ck.count('parents-at-checkpoint-horizon')
+                        offer(par, envh)
             after = chaingen.digest_state(cs)
             if after != before:
                 ck.violation('state-mutated-by-rejected-block', 'chain state object changed while candidate blocks were '
